@@ -394,6 +394,95 @@ def rule_first_wins(ctx, rep):
         raise AnalysisError('Footnote.read could not be simulated with a stubbed match_reference')
 
 
+def _count_ops(prov, what):
+    """How many times an operation named `what` occurs in a provenance chain."""
+    n = 0
+    if isinstance(prov, tuple):
+        if prov and prov[0] == what:
+            n += 1
+        for x in prov:
+            n += _count_ops(x, what)
+    return n
+
+
+class RefMatch(AbstractValue):
+    """A core match object as match_link_image builds it: group(2) / group(3) are the destination and title."""
+
+    def __init__(self, dest, title, dest_type):
+        self.dest, self.title, self.dest_type = dest, title, dest_type
+
+    def abs_getattr(self, interp, name):
+        from ..domains import _AbsBound
+        if name == 'dest_type':
+            return self.dest_type
+        if name in ('label', 'title_delimiter'):
+            return None
+        if name in ('group', 'start', 'end'):
+            return _AbsBound(self, name)
+        raise Raised(ExcVal('AttributeError', ('MatchObj', name)))
+
+    def abs_method(self, interp, name, args, kwargs):
+        g = args[0] if args else 0
+        if name == 'group':
+            return {2: self.dest, 3: self.title}.get(g, AbsStr(label='group%d' % g))
+        return AbsInt('match.%s(%r)' % (name, g))
+
+
+def rule_def_value(ctx, rep):
+    """A reference resolves to the destination and title of its definition: backslash escapes and entities of the
+    definition's text are resolved exactly once on the way into the Link / Image token, as they are for an inline
+    link. The writer is run over an abstract definition (what it stores), then the token constructors are run on a
+    reference match carrying the stored values and on an inline match carrying raw text; each resulting attribute
+    must derive from its source through exactly one unescaping."""
+    model = ctx.model
+    rule = 'R-DEF-VALUE'
+    rep.rule(rule, 'destination and title reach Link / Image through exactly one unescaping, for references and inline links alike')
+    writers = []
+    for fi, node in footnote_writers(model):
+        if fi not in writers:
+            writers.append(fi)
+    stored = None
+    for fi in writers:
+        for kind, exc, fm, labels, dests, applied in simulate_writer(model, fi):
+            for op, key, value, known in fm.log:
+                if op in ('set', 'setdefault') and isinstance(value, tuple) and len(value) == 2 and stored is None:
+                    stored = value
+    if stored is None:
+        raise AnalysisError('no stored (destination, title) pair seen in the writer simulation')
+    for cname, dattr in (('Link', 'target'), ('Image', 'src')):
+        cls = model.cls('span_token.' + cname)
+        rep.instance(rule)
+        for dest_type in ('full', 'collapsed', 'shortcut', 'uri', 'angle_uri'):
+            reference = dest_type in ('full', 'collapsed', 'shortcut')
+            src_d, src_t = (stored if reference else (AbsStr(label='rawdest'), AbsStr(label='rawtitle')))
+            problems = []
+
+            def runner(oracle):
+                it = Interp(model, loop_bound=1)
+                it.reset_run(oracle)
+                install_rx_hooks(it, [])
+                _prov_intrinsics(it)
+                hit = cls.lookup('__init__')
+                o = Obj(cls, {})
+                it.call_function(hit[1], [o, RefMatch(src_d, src_t, dest_type)], {})
+                return o
+            for trace, o in enumerate_paths(runner, 16):
+                for attr, src in ((dattr, src_d), ('title', src_t)):
+                    v = o.attrs.get(attr)
+                    prov = getattr(v, 'prov', None)
+                    n_ent = _count_ops(prov, 'html.unescape')
+                    n_esc = _count_ops(prov, 'rxsub') + _count_ops(prov, 're.sub')
+                    if not isinstance(v, AbsStr) or (n_ent, n_esc) != (1, 1):
+                        problems.append('%s.%s of a %s %s has entities resolved %d time(s) and backslash escapes %d time(s) on the way from '
+                                        'the %s text' % (cname, attr, dest_type, 'reference' if reference else 'inline link', n_ent, n_esc,
+                                                         "definition's" if reference else "link's own"))
+            rep.obligation(rule, not problems, {'class': cname, 'dest_type': dest_type, 'problems': sorted(set(problems))})
+            for p_ in sorted(set(problems)):
+                rep.find(rule, cls.short + '.__init__', '%s:%s' % (dest_type, p_.split(' of ')[0]),
+                         p_ + ': exactly once is required (twice turns \\\\* into * and &amp;amp; into &; never leaves \\* and &amp; as written)',
+                         loc(model.unit_of(cls), cls.node), witness='[foo]\n\n[foo]: /a\\\\*b "&amp;amp;"')
+
+
 def normaliser_of(fi, expr, depth=0):
     """Name of the function whose call produces `expr` (through single assignments in fi)."""
     if isinstance(expr, ast.Call) and isinstance(expr.func, (ast.Name, ast.Attribute)):
@@ -515,6 +604,15 @@ def rule_no_output(ctx, rep):
                  '(or loses/reorders tokens): %r' % (res,), loc(model.unit_of(mt), mt.node))
 
 
+def _label_follows(trace):
+    """follows(string, offset, '[') was decided True on this path."""
+    for kk, v in trace:
+        k = kk[1] if isinstance(kk, tuple) and len(kk) == 2 and kk[0] == 'cond' else kk
+        if isinstance(k, tuple) and len(k) == 3 and k[0] == 'follows' and k[2] == '[' and v is True:
+            return True
+    return False
+
+
 def rule_literal_fallback(ctx, rep):
     model = ctx.model
     rep.rule('R-LITERAL-FALLBACK', 'match_link_image yields a reference match only if the label lookup succeeded')
@@ -525,6 +623,7 @@ def rule_literal_fallback(ctx, rep):
     n_paths = 0
     bad = []
     gave_up = []
+    wrong_form = []
 
     def runner(oracle):
         it = Interp(model, loop_bound=1)
@@ -564,10 +663,7 @@ def rule_literal_fallback(ctx, rep):
         if r is None:
             # literal text: only after the shortcut lookup of the bracketed text was tried and failed, unless a
             # link label follows (then the full / collapsed forms decide)
-            label_follows = any(isinstance(k, tuple) and len(k) == 3 and k[0] == 'follows' and k[2] == '[' and v is True
-                                for k, v in [(kk[1] if isinstance(kk, tuple) and len(kk) == 2 and kk[0] == 'cond' else kk, vv)
-                                             for kk, vv in trace])
-            if 'get' not in rec and not label_follows:
+            if 'get' not in rec and not _label_follows(trace):
                 gave_up.append(trace)
             continue
         dt = r.attrs.get('dest_type') if isinstance(r, Obj) else None
@@ -575,6 +671,8 @@ def rule_literal_fallback(ctx, rep):
             bad.append(('full', trace))
         if dt in ('collapsed', 'shortcut') and not rec.get('get'):
             bad.append((dt, trace))
+        if dt == 'shortcut' and _label_follows(trace):
+            wrong_form.append(trace)
         if dt not in ('uri', 'angle_uri', 'full', 'collapsed', 'shortcut') and not is_abstract(dt):
             bad.append(('unknown-dest-type:%r' % (dt,), trace))
     ok = not bad
@@ -591,6 +689,13 @@ def rule_literal_fallback(ctx, rep):
                  '(%d path(s), e.g. decisions %s): a defined reference followed by text that merely looks like the start of an '
                  'inline link stays literal' % (len(gave_up), [(str(k)[:40], v) for k, v in gave_up[0]][:5]),
                  loc(model.unit_of(f), f.node), witness='[foo](not a link)\n\n[foo]: /url1')
+    ok3 = not wrong_form
+    rep.obligation('R-LITERAL-FALLBACK', ok3, {'shortcut matches although a link label follows': len(wrong_form)})
+    if not ok3:
+        rep.find('R-LITERAL-FALLBACK', f.short, 'shortcut-although-label-follows',
+                 'match_link_image can return a shortcut reference although the bracketed text is followed by a link label: '
+                 '[foo][bar] with bar undefined must stay literal, not become a link to foo (%d path(s))' % len(wrong_form),
+                 loc(model.unit_of(f), f.node), witness='[foo][bar]\n\n[foo]: /url')
     rep.floor('R-LITERAL-FALLBACK', n_paths, 8)
 
 
@@ -601,4 +706,5 @@ def run(ctx):
     rule_label_agree(ctx, rep)
     rule_no_output(ctx, rep)
     rule_literal_fallback(ctx, rep)
+    rule_def_value(ctx, rep)
     rep.assume('call graph over-approximates dynamic dispatch by method name; sound for unreachability claims')
